@@ -24,6 +24,21 @@ LEVEL_TEXT = ("Lean 4 theorems: VirtualServer and TransportServer file names are
 LEVEL_NOTE = "Assurance = weaker of (theorems about the model, correspondence with the real Configurator+LocalManager on a real directory)."
 TECHNIQUE = "Lean 4 proof (separator injectivity, directory invariant over all op sequences) + model/implementation correspondence on a real directory"
 
+# what the harness' restart reproduces by hand: cmd/nginx-ingress/main.go writes the passthrough hosts map empty before NGINX starts
+STARTUP_PIN = r"if \*enableTLSPassthrough \{\s*var emptyFile \[\]byte\s*nginxManager\.CreateTLSPassthroughHostsConfig\(emptyFile\)\s*\}"
+
+
+def regenerate(tier):
+    import os, re
+    src = open(os.path.join(vlib.REPO, "cmd", "nginx-ingress", "main.go")).read()
+    broken = []
+    if not re.search(STARTUP_PIN, src):
+        broken.append(("startup-pin:passthrough-map-written-empty", "cmd/nginx-ingress/main.go no longer contains the start-up block that writes an empty "
+                       "TLS-passthrough hosts map when -enable-tls-passthrough is set; the restart step of the harness and of the model (Files.step .restart) assume it"))
+    m = re.search(r"func \(lm \*LocalManager\) CreateTLSPassthroughHostsConfig\(content \[\]byte\) bool \{(.*?)\n\}", open(os.path.join(vlib.REPO, "internal", "nginx", "manager.go")).read(), re.S)
+    return dict(broken=broken, obligations=1, discharged=1 - len(broken), summary=dict(startup_pin="present" if not broken else "missing"))
+
+
 NSS = ["a", "b", "a-b", "a.b"]
 NAMES = ["a", "b", "c", "b-c", "a.b", "c.v2", "a-b"]
 
@@ -82,9 +97,35 @@ def gen_case(rng, maxops=15, restart=True):
     return "files plus=%d ops=%s" % (rng.below(2), ";".join(ops))
 
 
+def gen_restart_pt(rng):
+    """Passthrough TransportServers are served, the controller restarts on the surviving volume, and some — or all — of them were
+    deleted while it was down: the hosts map must list exactly the passthrough TransportServers that are served again."""
+    ops, uid = [], 0
+    tss = []
+    for name in rng.shuffle(["a", "b", "c"])[: 1 + rng.below(3)]:
+        uid += 1
+        tss.append((name, uid, "h%d.ex" % uid))
+        ops.append("at|a|%s|%d|h%d.ex" % (name, uid, uid))
+    if rng.chance(1, 2):
+        uid += 1
+        ops.append("av|a|v|%d" % uid)
+    ops.append("rs")
+    back = [t for t in tss if rng.chance(1, 3)]
+    for name, u, host in back:
+        ops.append("at|a|%s|%d|%s" % (name, u, host))
+    if rng.chance(1, 2):
+        uid += 1
+        ops.append("at|b|t|%d|_" % uid)          # a TCP TransportServer only
+    if rng.chance(1, 2):
+        uid += 1
+        ops.append("ai|a|i|%d" % uid)
+    return "files plus=%d ops=%s" % (rng.below(2), ";".join(ops))
+
+
 def gen(rng, tier):
     n = 300 if tier == "quick" else 3000
-    return [dict(line=gen_case(rng, 15 if tier == "quick" else 25), tags=["sequence"]) for _ in range(n)]
+    return ([dict(line=gen_case(rng, 15 if tier == "quick" else 25), tags=["sequence"]) for _ in range(n)] +
+            [dict(line=gen_restart_pt(rng), tags=["restart-passthrough"]) for _ in range(n // 6)])
 
 
 def corpus():
@@ -144,10 +185,11 @@ def spec_check(line, impl):
         got_stream = dict(x.rsplit("@", 1) for x in sec.get("stream", "").split(",") if x)
         pt = sec.get("pt", "")
         got_pt = {} if pt in ("", "nofile") else dict(x.split("=", 1) for x in pt.split(","))
-        if got_conf != want_conf or got_stream != want_stream:
-            return "after op#%d (%s): files on disk %s / %s differ from the served resources %s / %s" % (i, o, sorted(got_conf.items()), sorted(got_stream.items()), sorted(want_conf.items()), sorted(want_stream.items()))
+        # the hosts map first: stale configuration files after a restart are a recorded finding (S-C10-b) and must not hide it
         if got_pt != want_pt:
             return "after op#%d (%s): TLS-passthrough host map %s differs from the served passthrough TransportServers %s" % (i, o, sorted(got_pt.items()), sorted(want_pt.items()))
+        if got_conf != want_conf or got_stream != want_stream:
+            return "after op#%d (%s): files on disk %s / %s differ from the served resources %s / %s" % (i, o, sorted(got_conf.items()), sorted(got_stream.items()), sorted(want_conf.items()), sorted(want_stream.items()))
     return None
 
 
@@ -188,20 +230,17 @@ def sig_ing_collision(case, issue):
 
 
 def sig_restart_stale(case, issue):
-    """S-C10-b: after a restart, files (or passthrough hosts) of resources that were not re-added stay on the surviving volume."""
+    """S-C10-b: after a restart, configuration files of resources that were not re-added stay on the surviving volume (the passthrough
+    hosts map is NOT part of it: start-up writes it empty)."""
     if "rs" not in case.get("line", "").split("ops=")[-1].split(";"):
         return False
-    if "differ from the served resources" in issue or "TLS-passthrough host map" in issue:
+    if "differ from the served resources" in issue:
         # only *extra* files/hosts on disk: everything served must be present and right
         import ast, re
         m = re.search(r"files on disk (\[.*\]) / (\[.*\]) differ from the served resources (\[.*\]) / (\[.*\])$", issue)
         if m:
             gc, gs, wc, ws = (dict(ast.literal_eval(x)) for x in m.groups())
             return all(gc.get(k) == v for k, v in wc.items()) and all(gs.get(k) == v for k, v in ws.items())
-        m = re.search(r"host map (\[.*\]) differs from the served passthrough TransportServers (\[.*\])$", issue)
-        if m:
-            g, w = (dict(ast.literal_eval(x)) for x in m.groups())
-            return all(g.get(k) == v for k, v in w.items())
     return False
 
 
